@@ -1,0 +1,65 @@
+//go:build verif
+
+// Contracts for package interp, read by the verification engine in /verif
+// (comment-only; compiled only under the "verif" build tag).
+
+package interp
+
+//@ props C19
+
+// An execution environment made by NewExecEnv has its name in Args[0] and a
+// variable map.
+//@ wf ExecEnv: len(self.Args) >= 1 && self.vars != nil
+
+// A field is a list of segments with one quoting flag per segment.
+//@ wf field: len(self.b) == len(self.quote)
+
+// The arithmetic lexer records only ArithExprError values.
+//@ wf lexer: self.err == nil || self.err is ArithExprError
+
+//@ wf elems
+//@ default opaque
+
+//@ spec func alldigits(s string) bool = forall j: 0 <= j < len(s) ==> '0' <= s[j] && s[j] <= '9'
+
+//@ func (*ExecEnv).keyFor
+//@   inline
+
+//@ func (*ExecEnv).isPosParam
+//@   loop "for _, r := range s" invariant forall j: 0 <= j < rangepos() ==> '0' <= s[j] && s[j] <= '9'
+//@   ensures result ==> alldigits(s) && len(s) >= 1
+
+//@ func (*ExecEnv).Walk
+//@   requires fn != nil
+
+//@ func (*ExecEnv).expand
+//@   ensures err == nil ==> len(fields) >= 1
+
+//@ func (*ExecEnv).expandParam
+//@   requires len(fields) >= 1 && pe != nil
+//@   ensures result1 == nil ==> len(result0) >= 1
+
+//@ func (*ExecEnv).expandTilde
+//@   requires f != nil
+
+//@ func (*ExecEnv).expandPath
+//@   requires f != nil
+
+//@ func (*ExecEnv).split
+//@   requires f != nil
+//@   loop "for j, r := range s" invariant 0 <= i && i <= rangepos()
+
+//@ func (*ExecEnv).join
+//@   ensures result != nil
+
+//@ func (*ExecEnv).Eval
+//@   ensures err != nil ==> err is ArithExprError
+
+//@ func (*field).merge
+//@   requires t != nil
+
+//@ func (ParamExpError).Error
+//@   requires e.ParamExp != nil
+
+//@ func newLexer
+//@   ensures result != nil
